@@ -87,6 +87,7 @@ def expect_chords(site, got, want, tags=None):
 # ---------------------------------------------------------------------------------------
 def run_diatonic(case):
     S = engine.S
+    S.sample(case)
     key = case[0]
     notes = H.key_notes(key)
     T, V7 = H.triads(key), H.sevenths(key)
@@ -168,6 +169,7 @@ _PREFIX = {"kmax": 3}
 def run_prefix(case):
     """case = [key, degree, seventh, lower, k]"""
     S = engine.S
+    S.sample(case)
     key, deg, seventh, lower, k = case
     base = (H.sevenths(key) if seventh else H.triads(key))[deg]
     want = [H.shift(x, k) for x in base]
@@ -199,6 +201,7 @@ _SUFFIX = {"ks": [-1, 0, 1]}
 def run_suffix(case):
     """case = [key, degree, suffix, k, lower]"""
     S = engine.S
+    S.sample(case)
     key, deg, suffix, k, lower = case
     root = H.key_notes(key)[deg]
     if suffix == "":
@@ -257,6 +260,7 @@ def unknown_numerals():
 def run_unknown(case):
     """case = [string, key, as_list]"""
     S = engine.S
+    S.sample(case)
     s, key, as_list = case
     if H.parse(s)[1] is not None:
         raise engine.HarnessError("%r is a recognised numeral" % s)
@@ -304,6 +308,7 @@ def _short_hits(answers, deg, seventh):
 def run_function(case):
     """case = [key, 'single', degree, seventh] | [key, 'list', seventh] | [key, 'numeral', degree, seventh, lower]"""
     S = engine.S
+    S.sample(case)
     key, form = case[0], case[1]
     if form == "single":
         deg, seventh = case[2], case[3]
@@ -391,6 +396,7 @@ _ROUND = {"kmax": 3}
 def run_roundtrip(case):
     """case = [degree, k, suffix]"""
     S = engine.S
+    S.sample(case)
     deg, k, suffix = case
     s = H.fmt(deg, k, suffix)
     ok, t = call("progressions.parse_string(%r)" % s, mprog.parse_string, s)
@@ -493,6 +499,7 @@ _RULES = {"other_position_keys": MAJOR_KEYS}
 def run_rules(case):
     """case = [rule, degree, k, suffix, lower, ignore_suffix, length, index]"""
     S = engine.S
+    S.sample(case)
     rule, deg, k, suffix, lower, ignore, length, index = case
     subject = H.fmt(deg, k, suffix, lower)
     prog = make_progression(subject, length, index)
@@ -567,6 +574,7 @@ _SUBST = {"keys": MAJOR_KEYS, "suffixes": H.SUFFIXES}
 def run_substitute(case):
     """case = [degree, k, suffix, lower, length, index, depth]"""
     S = engine.S
+    S.sample(case)
     deg, k, suffix, lower, length, index, depth = case
     subject = H.fmt(deg, k, suffix, lower)
     prog = make_progression(subject, length, index)
